@@ -153,6 +153,7 @@ class Facts:
             self.anchor_notes += inline.inline_new_closures(d, anchors._load())
         if not os.environ.get("RM_NO_NORMALIZE"):
             import normalize
+            self.anchor_notes += normalize.atomic_equivalents(d)
             self.n_index_calls = normalize.index_to_calls(d)
         self.meta = d["meta"]
         if H is not None and self.meta.get("nonce") != H:
